@@ -150,11 +150,18 @@ class CodecKernel:
     # ------------------------------------------------------------------ tables
     def translate_tables(self):
         tree = self.parse(self.spec['file'])
-        cls = find_class(tree, self.spec['cls'])
-        if cls is None:
-            raise Unsupported(f"class {self.spec['cls']} not found in {self.spec['file']}")
-        out = [f'(* {self.spec["file"]} :: class {self.spec["cls"]} (codec tables) *)']
-        bases = [ast.unparse(b) for b in cls.bases]
+        if self.spec.get('cls') is None:
+            # module-level functions (the file reader / writer): "bases" lists every top-level definition, so that a
+            # new helper on the path between to_dict and the file is noticed
+            cls = tree
+            out = [f'(* {self.spec["file"]} :: module-level functions (codec tables) *)']
+            bases = [n.name for n in tree.body if isinstance(n, (ast.FunctionDef, ast.ClassDef))]
+        else:
+            cls = find_class(tree, self.spec['cls'])
+            if cls is None:
+                raise Unsupported(f"class {self.spec['cls']} not found in {self.spec['file']}")
+            out = [f'(* {self.spec["file"]} :: class {self.spec["cls"]} (codec tables) *)']
+            bases = [ast.unparse(b) for b in cls.bases]
         self.tables['bases'] = bases
         out.append(f'Definition k_{self.name}_bases : list string := [' + '; '.join(coq_str(b) for b in bases) + '].')
         for m in self.spec.get('methods', ['to_dict', 'from_dict', '__init__']):
